@@ -63,7 +63,10 @@ ObjExpectOK(sol) ==
 \* ---- C19: the executor ---------------------------------------------------------------------------------------------------------
 \* xs: [time (Rat), started / ended (sets of atom ids), sAt / eAt (the values frozen when they started / ended),
 \*      reqS / reqE (atoms the client asked to delay during the current tick() call), plan (last projection)]
-X0 == [time |-> Zero, started |-> {}, ended |-> {}, sAt |-> << >>, eAt |-> << >>, reqS |-> {}, reqE |-> {}, plan |-> << >>]
+\*      cand (the atoms of the last "starting" callback with their planned times), need (for every atom whose start the
+\*      client delayed and that has not started yet: the time before which it must not be planned any more)
+X0 == [time |-> Zero, started |-> {}, ended |-> {}, sAt |-> << >>, eAt |-> << >>, reqS |-> {}, reqE |-> {}, plan |-> << >>,
+       cand |-> << >>, need |-> << >>]
 XIds(ps) == {ps[i][1] : i \in DOMAIN ps}
 XVal(ps, id) == (CHOOSE i \in DOMAIN ps : ps[i][1] = id)
 XStep(ev) ==
@@ -74,10 +77,22 @@ XStep(ev) ==
                    IN /\ a.id \in xs.started => IREqv(a.s, xs.sAt[a.id])
                       /\ a.id \in xs.ended => IREqv(a.e, xs.eAt[a.id]))
          /\ Chk({"C19"}, "PlanTime", ev.t = xs.time)
+         \* a start that the client delayed is not planned earlier than the delayed time in any later plan (delays, failures
+         \* and re-planning included), until the atom starts
+         /\ Chk({"C19"}, "DelayedStartKept",
+                \A i \in DOMAIN ev.atoms :
+                   LET a == ev.atoms[i]
+                   IN (a.id \in DOMAIN xs.need /\ a.id \notin xs.started) => IRGe(a.s, xs.need[a.id]))
          /\ xs' = [xs EXCEPT !.plan = ev.atoms]
     [] ev.e = "x_call_tick" -> xs' = [xs EXCEPT !.reqS = {}, !.reqE = {}]
-    [] ev.e \in {"x_starting", "x_ending"} -> UNCHANGED xs
-    [] ev.e = "x_dont_start" -> xs' = [xs EXCEPT !.reqS = xs.reqS \cup XIds(ev.req)]
+    [] ev.e = "x_starting" -> xs' = [xs EXCEPT !.cand = ev.atoms]
+    [] ev.e = "x_ending" -> UNCHANGED xs
+    [] ev.e = "x_dont_start" ->
+         xs' = [xs EXCEPT !.reqS = xs.reqS \cup XIds(ev.req),
+                          !.need = [id \in (DOMAIN xs.need) \cup {x \in XIds(ev.req) : x \in XIds(xs.cand)} |->
+                                      IF id \in XIds(ev.req) /\ id \in XIds(xs.cand)
+                                      THEN IRAdd(xs.cand[XVal(xs.cand, id)][2], IROf(<<ev.req[XVal(ev.req, id)][2], 1>>))
+                                      ELSE xs.need[id]]]
     [] ev.e = "x_dont_end" -> xs' = [xs EXCEPT !.reqE = xs.reqE \cup XIds(ev.req)]
     [] ev.e = "x_start" ->
          /\ Chk({"C19"}, "StartedOnce", XIds(ev.atoms) \cap xs.started = {})
@@ -98,7 +113,8 @@ XStep(ev) ==
          /\ Chk({"C19"}, "TimeAdvancesByOneUnit", ev.time = Add(xs.time, One))
          /\ xs' = [xs EXCEPT !.time = ev.time]
     [] ev.e = "x_failure" ->      \* the failed atoms leave the plan: they are no longer tracked
-         xs' = [xs EXCEPT !.started = xs.started \ SeqRange(ev.atoms), !.ended = xs.ended \ SeqRange(ev.atoms)]
+         xs' = [xs EXCEPT !.started = xs.started \ SeqRange(ev.atoms), !.ended = xs.ended \ SeqRange(ev.atoms),
+                          !.need = [id \in (DOMAIN xs.need) \ SeqRange(ev.atoms) |-> xs.need[id]]]
     [] ev.e = "x_exception" -> UNCHANGED xs
     [] ev.e = "x_done" ->
          /\ Chk({"C19"}, "EverythingDispatched",
